@@ -87,6 +87,12 @@ static uint32_t COCSdoGetTicks(CO_CSDO *csdo, uint32_t ms)
     } else {
         ticks += part;
     }
+    /* a timeout below the resolution of the timer lasts one tick: every
+     * transfer is supervised, none waits for its answer without end
+     */
+    if (ticks == 0u) {
+        ticks = 1u;
+    }
     return (ticks);
 }
 
